@@ -315,6 +315,15 @@ fn topology_family(rep: &mut Report) {
         lang: Lang,
         /// where the workspace sits below the scratch root (a `src` directory *above* the crates must not matter)
         root: &'static str,
+        /// every second crate's type carries a name starting with a non-ASCII capital letter
+        unicode: bool,
+    }
+    fn tn(n: usize, unicode: bool) -> String {
+        if unicode && n % 2 == 0 {
+            format!("Ét{n}")
+        } else {
+            format!("T{n}")
+        }
     }
     let thorough = rep.thorough();
     let mut jobs = Vec::new();
@@ -334,12 +343,15 @@ fn topology_family(rep: &mut Report) {
                     if k > kmax || (qualified && edges == 0) {
                         continue;
                     }
-                    jobs.push(Topo { k, edges, qualified, lang, root: "ws" });
+                    jobs.push(Topo { k, edges, qualified, lang, root: "ws", unicode: false });
+                    if k <= 3 && k >= 2 {
+                        jobs.push(Topo { k, edges, qualified, lang, root: "ws", unicode: true });
+                    }
                     if k <= 3 {
-                        jobs.push(Topo { k, edges, qualified, lang, root: "checkout/src/proj/ws" });
+                        jobs.push(Topo { k, edges, qualified, lang, root: "checkout/src/proj/ws", unicode: false });
                     }
                     if k <= 2 {
-                        jobs.push(Topo { k, edges, qualified, lang, root: "src" });
+                        jobs.push(Topo { k, edges, qualified, lang, root: "src", unicode: false });
                     }
                 }
             }
@@ -367,17 +379,19 @@ fn topology_family(rep: &mut Report) {
             for (a, b) in es.iter().filter(|e| e.0 == i) {
                 let _ = a;
                 let n = b + 1;
+                let name = tn(n, t.unicode);
                 if t.qualified {
-                    fields.push_str(&format!("    pub r{n}: Vec<k{n}::T{n}>,\n"));
+                    fields.push_str(&format!("    pub r{n}: Vec<k{n}::{name}>,\n"));
                 } else {
-                    uses.push_str(&format!("use k{n}::T{n};\n"));
-                    fields.push_str(&format!("    pub r{n}: Option<T{n}>,\n"));
+                    uses.push_str(&format!("use k{n}::{name};\n"));
+                    fields.push_str(&format!("    pub r{n}: Option<{name}>,\n"));
                 }
             }
             let n = i + 1;
-            files.push((format!("{}/k{n}/src/lib.rs", t.root), format!("{uses}#[typeshare]\npub struct T{n} {{\n{fields}}}\n")));
+            let own = tn(n, t.unicode);
+            files.push((format!("{}/k{n}/src/lib.rs", t.root), format!("{uses}#[typeshare]\npub struct {own} {{\n{fields}}}\n")));
             // a second file of the same crate, deeper, referring to the crate's own type
-            files.push((format!("{}/k{n}/src/sub/more.rs", t.root), format!("use crate::T{n};\n#[typeshare]\npub struct Extra{n} {{\n    pub t: T{n},\n}}\n")));
+            files.push((format!("{}/k{n}/src/sub/more.rs", t.root), format!("use crate::{own};\n#[typeshare]\npub struct Extra{n} {{\n    pub t: {own},\n}}\n")));
         }
         files
     };
@@ -410,7 +424,7 @@ fn topology_family(rep: &mut Report) {
         }
         let out_deg_max = (0..t.k).map(|i| es.iter().filter(|e| e.0 == i).count()).max().unwrap_or(0);
         let in_deg_max = (0..t.k).map(|i| es.iter().filter(|e| e.1 == i).count()).max().unwrap_or(0);
-        let shape = format!("crates={}|edges={}|max_out={out_deg_max}|max_in={in_deg_max}|qualified={}|root={}", t.k, es.len(), t.qualified as u8, match t.root { "ws" => "plain", "src" => "directory-named-src", _ => "below-an-outer-src" });
+        let shape = format!("crates={}|edges={}|max_out={out_deg_max}|max_in={in_deg_max}|qualified={}|non_ascii_names={}|root={}", t.k, es.len(), t.qualified as u8, t.unicode as u8, match t.root { "ws" => "plain", "src" => "directory-named-src", _ => "below-an-outer-src" });
         let ws = ws_of(t);
         let detail = |what: &str| json!({"argv": o.argv, "edges": es.iter().map(|(a, b)| format!("T{}->T{}", a + 1, b + 1)).collect::<Vec<_>>(), "workspace": ws.iter().map(|(p, s)| json!({"path": p, "source": s})).collect::<Vec<_>>(), "generated_files": o.files, "stderr": o.stderr, "observation": what});
         judgements += 1;
@@ -442,13 +456,13 @@ fn topology_family(rep: &mut Report) {
         }
         // partition: T<n> and Extra<n> exactly once, in k<n>'s file
         for n in 1..=t.k {
-            for name in [format!("T{n}"), format!("Extra{n}")] {
+            for name in [tn(n, t.unicode), format!("Extra{n}")] {
                 judgements += 1;
                 let home = pipeline::out_file_name(lang, &format!("k{n}"));
                 let total: usize = parsed.values().map(|of| of.defs.iter().filter(|d| d.name() == name).count()).sum();
                 let at_home = parsed.get(&home).map(|of| of.defs.iter().filter(|d| d.name() == name).count()).unwrap_or(0);
                 if total != 1 || at_home != 1 {
-                    rep.vios.add(Violation { sig: format!("C14|{}|topology|definition-misplaced|item={}|{shape}", lang.name(), if name.starts_with('T') { "T" } else { "Extra" }), detail: detail(&format!("{name}: {total} definition(s) overall, {at_home} in {home}")) });
+                    rep.vios.add(Violation { sig: format!("C14|{}|topology|definition-misplaced|item={}|{shape}", lang.name(), if name.starts_with("Extra") { "Extra" } else { "T" }), detail: detail(&format!("{name}: {total} definition(s) overall, {at_home} in {home}")) });
                 }
             }
         }
@@ -488,7 +502,7 @@ fn topology_family(rep: &mut Report) {
                     }
                     if let Some((g, _)) = parsed.iter().find(|(g, x)| *g != f && x.defs.iter().any(|d| d.name() == r)) {
                         want.insert(r.clone(), g.rsplit_once('.').map(|x| x.0.to_string()).unwrap_or(g.clone()));
-                    } else if r.starts_with('T') && r[1..].chars().all(|c| c.is_ascii_digit()) {
+                    } else if (1..=t.k).any(|n| tn(n, t.unicode) == r) {
                         rep.vios.add(Violation { sig: format!("C14|{}|topology|reference-to-undefined-name|{shape}", lang.name()), detail: detail(&format!("{f} refers to {r}, which no generated file defines")) });
                     }
                 }
@@ -503,7 +517,7 @@ fn topology_family(rep: &mut Report) {
             }
         }
     }
-    rep.cov("topologies", json!({"workspaces": jobs.len(), "with_cross_crate_references": with_edges, "crates": if thorough { "1..=5 (TS, Kotlin), 1..=4 (others)" } else { "1..=4 (TS, Kotlin), 1..=3 (others)" }, "edge_sets": "every subset of {i -> j : i < j}", "reference_styles": ["use + bare name", "qualified path"], "files_per_crate": 2, "workspace_location": ["<scratch>/ws", "<scratch>/checkout/src/proj/ws (k <= 3)", "<scratch>/src (k <= 2)"], "judgements": judgements}));
+    rep.cov("topologies", json!({"workspaces": jobs.len(), "with_cross_crate_references": with_edges, "crates": if thorough { "1..=5 (TS, Kotlin), 1..=4 (others)" } else { "1..=4 (TS, Kotlin), 1..=3 (others)" }, "edge_sets": "every subset of {i -> j : i < j}", "reference_styles": ["use + bare name", "qualified path"], "files_per_crate": 2, "type_names": ["T<n>", "every second one starting with a non-ASCII capital (k = 2, 3)"], "workspace_location": ["<scratch>/ws", "<scratch>/checkout/src/proj/ws (k <= 3)", "<scratch>/src (k <= 2)"], "judgements": judgements}));
     rep.cov_add("evaluations", judgements);
     rep.cov_add("states", jobs.len() as u64);
     rep.cov_add("transitions", jobs.len() as u64 * 2);
